@@ -45,6 +45,7 @@ type event struct {
 	X      exactX   `json:"x"`
 	R      string   `json:"r"`
 	Allocs int      `json:"allocs"`
+	Pan    string   `json:"pan"` // non-empty: the call panicked (message)
 }
 
 func blankEvent() event {
@@ -101,7 +102,11 @@ func (r *recorder) parse(g int, ver string, s string) (Obj, int) {
 	v := versions[ver]
 	e := blankEvent()
 	e.G, e.Ver, e.Op, e.B = g, ver, "parse", intsOf(s)
-	o, err := v.Parse(s)
+	var o Obj
+	var err error
+	if p, msg := safely(func() { o, err = v.Parse(s) }); p {
+		e.Pan = msg
+	}
 	e.OK = err == nil
 	e.Err = errToJ(v, err)
 	h := 0
@@ -119,7 +124,10 @@ func (r *recorder) set(g int, ver string, h int, o Obj, a, val string) {
 	e := blankEvent()
 	e.G, e.Ver, e.Op, e.H, e.A, e.V = g, ver, "set", h, intsOf(a), intsOf(val)
 	e.Before = r.proj(ver, o)
-	err := o.Set(a, val)
+	var err error
+	if p, msg := safely(func() { err = o.Set(a, val) }); p {
+		e.Pan = msg
+	}
 	e.Err = errToJ(v, err)
 	e.After = r.proj(ver, o)
 	r.emit(e)
@@ -130,7 +138,11 @@ func (r *recorder) get(g int, ver string, h int, o Obj, a string) {
 	e := blankEvent()
 	e.G, e.Ver, e.Op, e.H, e.A = g, ver, "get", h, intsOf(a)
 	e.Before = r.proj(ver, o)
-	val, err := o.Get(a)
+	var val string
+	var err error
+	if p, msg := safely(func() { val, err = o.Get(a) }); p {
+		e.Pan = msg
+	}
 	e.Val, e.Err = val, errToJ(v, err)
 	e.After = r.proj(ver, o)
 	r.emit(e)
@@ -140,7 +152,10 @@ func (r *recorder) vector(g int, ver string, h int, o Obj) string {
 	e := blankEvent()
 	e.G, e.Ver, e.Op, e.H = g, ver, "vector", h
 	e.Before = r.proj(ver, o)
-	s := o.Vector()
+	var s string
+	if p, msg := safely(func() { s = o.Vector() }); p {
+		e.Pan = msg
+	}
 	e.Out = intsOf(s)
 	e.After = r.proj(ver, o)
 	r.emit(e)
@@ -151,7 +166,10 @@ func (r *recorder) score(g int, ver string, h int, o Obj, m string) {
 	e := blankEvent()
 	e.G, e.Ver, e.Op, e.H, e.M = g, ver, "score", h, m
 	e.Before = r.proj(ver, o)
-	x := o.Score(m)
+	var x float64
+	if p, msg := safely(func() { x = o.Score(m) }); p {
+		e.Pan = msg
+	}
 	e.Raw = fmt.Sprintf("%v", x)
 	if k, ok := isTenth(x, -1000, 1000); ok {
 		e.Tenths = k
@@ -164,7 +182,9 @@ func (r *recorder) nomen(g int, h int, o Obj) {
 	e := blankEvent()
 	e.G, e.Ver, e.Op, e.H = g, "4.0", "nomen", h
 	e.Before = r.proj("4.0", o)
-	e.R = o.Nomenclature()
+	if p, msg := safely(func() { e.R = o.Nomenclature() }); p {
+		e.Pan = msg
+	}
 	e.After = r.proj("4.0", o)
 	r.emit(e)
 }
@@ -195,7 +215,11 @@ func (r *recorder) rating(g int, ver string, x float64) {
 	e.G, e.Ver, e.Op = g, ver, "rating"
 	e.X = exactOf(x)
 	e.Raw = fmt.Sprintf("%v", x)
-	s, err := v.Rating(x)
+	var s string
+	var err error
+	if p, msg := safely(func() { s, err = v.Rating(x) }); p {
+		e.Pan = msg
+	}
 	e.Err = errToJ(v, err)
 	switch {
 	case err == nil:
